@@ -34,6 +34,8 @@ chk("C08", "model_checking", "RefuseAfterStop, NoLateStoreWork, WaitersToldAtEnd
 chk("C09", "model_checking", "Backpressure (accepted-unanswered <= IBS + 3*(MaxBufferedRows+1) + 1) is an invariant of WritePath.tla with stores wedged at any call; on the real engine the flush worker is wedged at create/close/update with 4..32 producers and the count is taken at quiescence; canceled producers must return.", wp_note, wp_tech, "DESIGN 5 C09")
 chk("C10", "model_checking", "LimitFlushImmediate and (under fairness, with no Flush/Stop) EventuallyAnswered on WritePath.tla; on the real engine sequential batch shapes crossing row/byte/partition limits are replayed and the monitor recomputes from the declared shapes whether a limit was reached at each quiescent point; time-based flush is measured with real clocks against MaxBufferedTime + 100 ms + 2 s.", wp_note + " Wall-clock bounds are measured, not modelled.", wp_tech, "DESIGN 5 C10")
 
+chk("C04", "model_checking", "MinMax.tla: over a symbolic ordered domain isomorphic to the int64 boundary values (below MinInt64, MinInt64+k, small integers and half-integers, 2^63-1024, MaxInt64-k, 2^63, 1e19) TLC checks for every block of up to 3 values and all 370 conditions (EQ NE GT GTE LT LTE IN NOT_IN BETWEEN incl. inverted, NOT_BETWEEN) that a satisfying row's block is never pruned, that unions only widen and that ranges cover. The replayer substitutes every Go numeric kind that can hold each point (int..int64, uint..uint64, float32/64, named int/uint/float types, time.Duration, +-Inf) into ConvertToMinMaxInt64 / UpdateMinMaxIndex / EvaluateMinMaxCondition / EvaluateDataBlockMetadata for every point and pair, and ingests/flushes/merges/queries a sample end to end; MinMaxMonitor.tla (TLC) judges with the specification's Sat.", se_note, "TLA+ symbolic-domain spec (MinMax.tla) model-checked by TLC; all points/pairs x all conditions replayed on the real functions and engine; observations judged by TLC (MinMaxMonitor.tla)", "DESIGN 5 C04")
+
 EXTRA = os.path.join(V, "tools", "manifest_extra.py")
 if os.path.exists(EXTRA):
     exec(open(EXTRA).read())
